@@ -9,6 +9,7 @@
 using namespace vh;
 using namespace CDNS;
 
+static bool g_wellformed_only = false;   // --mode wellformed (C02): only "the appended bytes are exactly one CBOR item" is judged
 static const size_t FILLS_Q[] = {0, 1, 2040, 2046, 2047};
 static std::map<size_t, size_t> g_base;   // filler -> output size of the filler alone
 
@@ -25,7 +26,7 @@ template<class F> static void probe(const std::string& sname, const std::string&
     { CdnsEncoder e(MemSink{&outs}, CborOutputCompression::NO_COMPRESSION); put_filler(e, pad); ret = wr(e); }
     size_t base = base_size(pad), grown = outs.at(0).size() - base;
     R.count("traces"); R.count("transitions"); if (grown > 1) R.count("nontrivial");
-    if (ret != grown) out.push_back({"ser|" + sname + "|return-value", sname + "::write returned " + std::to_string(ret) + " but appended " + std::to_string(grown) + " bytes [" + rep + "]"});
+    if (!g_wellformed_only && ret != grown) out.push_back({"ser|" + sname + "|return-value", sname + "::write returned " + std::to_string(ret) + " but appended " + std::to_string(grown) + " bytes [" + rep + "]"});
     try { ref::parse_exact(outs[0].substr(base)); } catch (std::exception& ex) { out.push_back({"ser|" + sname + "|not-one-item", sname + "::write appended bytes that are not one CBOR item: " + ex.what() + " [" + rep + "]"}); }
     R.outcome(sname + (grown <= 1 ? ":1" : grown < 24 ? ":small" : ":large") + (base % 2048 + grown > 2048 ? ":crosses" : ""));
 }
@@ -143,7 +144,7 @@ static void run_roundtrip(const Case& c, Result& R, std::vector<SV>& out) {
 int main(int argc, char** argv) {
     Args a = Args::parse(argc, argv); Result total; bool T = a.thorough();
     auto done = [&](int rc) { a.finish(total); return rc; };
-    const bool RT = a.mode == "roundtrip"; const std::string which = a.kv.count("structs") ? a.kv["structs"] : std::string("all");
+    const bool RT = a.mode == "roundtrip"; g_wellformed_only = a.mode == "wellformed"; const std::string which = a.kv.count("structs") ? a.kv["structs"] : std::string("all");
     if (!a.replay.empty()) { std::string s = slurp(a.replay); Case c; unsigned long pd; if (sscanf(s.c_str(), "st=%d;mask=%u;w=%d;pad=%lu", &c.st, &c.mask, &c.w, &pd) != 4 || c.st < 0 || c.st >= NST) return done(2); c.pad = pd;
         Pool rp(1, 60); rp.run(1, [&](uint64_t, Result& R) { std::vector<SV> out; if (RT) run_roundtrip(c, R, out); else run_case(c, R, out); for (auto& v : out) R.violation(v.key, v.what, s); }, [&](uint64_t, const std::string& d, Result& R) { R.violation("ser|" + crash_key(d), d.substr(0, 1500), s); }, total);
         return done(total.viol.empty() ? 0 : 1); }
